@@ -19,6 +19,7 @@ type replayFile struct {
 	Harness string                 `json:"harness"`
 	Inputs  map[string]interface{} `json:"inputs"`
 	Expect  string                 `json:"expect"`
+	Tier    string                 `json:"tier"`
 }
 
 var (
@@ -133,10 +134,13 @@ func Cover(id string) {
 
 func Observe(id string, v interface{}) {}
 func Symbolic() bool                   { return false }
-func And(a, b bool) bool               { return a && b }
-func Or(a, b bool) bool                { return a || b }
-func Implies(a, b bool) bool           { return !a || b }
-func Not(a bool) bool                  { return !a }
+
+// Thorough reports whether the check runs in the thorough tier (larger bounds).
+func Thorough() bool         { return rf.Tier == "thorough" }
+func And(a, b bool) bool     { return a && b }
+func Or(a, b bool) bool      { return a || b }
+func Implies(a, b bool) bool { return !a || b }
+func Not(a bool) bool        { return !a }
 func IteInt(c bool, a, b int) int {
 	if c {
 		return a
@@ -145,14 +149,19 @@ func IteInt(c bool, a, b int) int {
 }
 func ErrIs(a, b error) bool { return a == b }
 
-func EqBytes(a, b []byte) bool   { return string(a) == string(b) }
-func EqString(a, b string) bool  { return a == b }
-func Yield()                     {}
-func WaitQuiescent()             { time.Sleep(20 * time.Millisecond) }
-func MustFinish()                {}
-func MayBlock()                  {}
-func ThreadsAlive() int          { return 0 }
-func Ghost(f func())             { f() }
+// Comparable reports whether the dynamic type of v is comparable; SameDynType whether two interface values have the
+// same dynamic type (engine intrinsics; natively answered with reflection-free approximations that are not used).
+func Comparable(v interface{}) bool     { return true }
+func SameDynType(a, b interface{}) bool { return true }
+
+func EqBytes(a, b []byte) bool       { return string(a) == string(b) }
+func EqString(a, b string) bool      { return a == b }
+func Yield()                         {}
+func WaitQuiescent()                 { time.Sleep(20 * time.Millisecond) }
+func MustFinish()                    {}
+func MayBlock()                      {}
+func ThreadsAlive() int              { return 0 }
+func Ghost(f func())                 { f() }
 func Nop(ptrToInterface interface{}) {}
 
 // UFBytes natively: a fixed pseudo-random function of (name, args).
@@ -174,11 +183,11 @@ func UFBytes(name string, outLen int, args ...[]byte) []byte {
 }
 func UFInverse(f, g string) {}
 
-func FlatTime(name string) time.Time       { return time.Unix(0, num(name)).UTC() }
-func TimeFromNanos(ns int64) time.Time     { return time.Unix(0, ns).UTC() }
-func TimeNanos(t time.Time) int64          { return t.UnixNano() }
+func FlatTime(name string) time.Time            { return time.Unix(0, num(name)).UTC() }
+func TimeFromNanos(ns int64) time.Time          { return time.Unix(0, ns).UTC() }
+func TimeNanos(t time.Time) int64               { return t.UnixNano() }
 func SpareCap(buf []byte, off, n, c int) []byte { return buf[off : off+n : off+n+c] }
-func ByteAt(s []byte, i int) byte          { return s[:cap(s)][i] }
+func ByteAt(s []byte, i int) byte               { return s[:cap(s)][i] }
 func SameArray(a, b []byte) bool {
 	if cap(a) == 0 || cap(b) == 0 {
 		return false
